@@ -69,7 +69,7 @@ def inputs(ctx):
             if c == "r2":
                 ts = [t for t in ts if t <= 1] + [0.9, 0.99]
             for ti, t in enumerate(rng.sample(ts, min(len(ts), 3))):
-                items.append(("c%d-%s-%s-%d" % (ci, c, d, ti), P.tolist(), {"f": "rdp", "t": t, "distance": d, "cost": c}))
+                items.append(("c%d-%s-%s-%d" % (ci, c, d, ti), P.tolist(), simpl.maybe_int(rng, P, {"f": "rdp", "t": t, "distance": d, "cost": c})))
     return items
 
 
